@@ -82,6 +82,7 @@ pub fn run_case(stage: &str, case: &Value, seed: u64) -> Outcome {
         "ep_rel" => entry::run_rel(case, seed),
         "ep_typed" => entry::run_typed(case, seed),
         "ep_pgp" => entry::run_pgp(case, seed),
+        "ep_codecs" => entry::run_codecs(case, seed),
         "rel_lossy_rt" => relsat::run_lossy_rt(case, seed),
         _ => panic!("unknown stage {}", stage),
     }
